@@ -8,7 +8,8 @@
     family (non-empty fixed-length sequences of character classes).
     The last section keeps, for the record, the witnesses that the code BEFORE
     those fixes ([before_fix]) did not have the property. *)
-From InvokeVerif Require Import Model.WatchModel Spec.C12Spec Proofs.C12_regex Proofs.C12_watch.
+From InvokeVerif Require Import Model.WatchModel Model.WatchBytesModel Spec.C12Spec Spec.C12BytesSpec
+     Proofs.C12_regex Proofs.C12_watch Proofs.C12_bytes.
 
 (** Flagship: any watchers, any schedule of reads over the two IO threads, however
     driven -- what the model writes to the child's stdin read by read, which threads
@@ -80,6 +81,48 @@ Example C12_example_straddle_answered :
   total (fst (feed_stream current [WResp (lit "ab") "y"] [chars "aba"; chars "b"])) = 2 /\
   snd (feed_stream current [WFail (lit "pw") "y" (lit "Sorry")] [chars "xx "; chars "Sorry"]) = false /\
   snd (feed_stream current [WFail (lit "pw") "y" (lit "No")] [chars "p"; chars "w"; chars "N"; chars "o"]) = true.
+Proof. vm_compute. repeat split; reflexivity. Qed.
+
+(** * Output delivered as UTF-8 bytes, reads cut anywhere -- also inside a character
+
+    [run_bytes] (Model/WatchBytesModel.v): each IO thread pushes the bytes of its reads
+    through ITS OWN incremental decoder and submits the characters completed so far.
+    [spec_ok_bytes] (Spec/C12BytesSpec.v) judges the responses against the whole
+    characters each read completes on its stream, read directly off the bytes.
+
+    Partial: under the boolean guard [decoders_agree] -- on this schedule the decoder
+    transducer of Model/Utf8Model.v delivers exactly those whole characters -- the run
+    meets the specification.  Missing: the general statement that the guard holds for
+    every schedule whose streams are well-formed UTF-8 (a fact about the decoder alone,
+    in C02's territory; here it is evaluated case by case), and code points >= 256. *)
+Theorem C12_bytes_meets_spec_partial : forall ws sched how,
+  decoders_agree sched = true ->
+  spec_ok_bytes ws sched how (fst (run_bytes current ws sched)) (snd (run_bytes current ws sched))
+                (outcome_exn how (snd (run_bytes current ws sched))) = true.
+Proof. exact bytes_meets_spec_partial. Qed.
+
+(** One decoder per stream: the text pieces a stream's watchers get are those of a decoder
+    run over that stream's reads alone, under every interleaving ... *)
+Theorem C12_bytes_own_decoder : forall sid sched,
+  of_stream sid (decoded sched) = fst (decode_stream Utf8Model.DInit (of_stream sid sched)).
+Proof. intros sid sched. unfold decoded. rewrite own_decoder. destruct sid; reflexivity. Qed.
+
+(** ... so what one stream is decoded to does not depend on what the other stream delivers,
+    or when (with [C12_streams_independent]: neither do its responses). *)
+Theorem C12_bytes_streams_independent : forall sid s1 s2,
+  of_stream sid s1 = of_stream sid s2 ->
+  of_stream sid (decoded s1) = of_stream sid (decoded s2).
+Proof. exact stream_pieces_independent. Qed.
+
+(** Non-vacuity: stderr is cut inside U+00ED (C3 | AD), stdout delivers U+00E9 in between;
+    Responder("\u00ed.") answers the stderr text "\u00ed\u00ed" once, in the read that completes it. *)
+Example C12_example_bytes :
+  let ws := [WResp [CLit (ascii_of_nat 237); CAny] "y"] in
+  let sched := [(true, codes [195]); (false, codes [195; 169]);
+                (true, codes [173; 195; 173])] in
+  decoders_agree sched = true /\ in_region sched = true /\
+  run_bytes current ws sched = ([[]; []; ["y"]], (false, false)) /\
+  text_sched [] [] sched = [(true, ""); (false, codes [233]); (true, codes [237; 237])].
 Proof. vm_compute. repeat split; reflexivity. Qed.
 
 (** * Historical record -- NOT about the code in /repo
